@@ -7,6 +7,7 @@ namespace AgdbSearch
 
 inductive ErrKind where
   | notFound
+  | invalidIndex
   | other
   deriving DecidableEq, Repr
 
